@@ -23,7 +23,8 @@ FAMILIES = [
     ("Sat3", "ring", ["direct", "earley", "cky"]),
     # signed real weights (a commutative ring): partial sums that are exactly zero before a later contribution arrives
     ("Rat", "signed", ["direct", "earley", "cky"]),
-    ("Log", "nocycle", ["direct", "earley", "cky"]),      # the shipped log-space semiring, judged as the reals exp(score)
+    ("Log", "nocycle", ["direct", "earley", "cky"]),
+    ("Sat3", "chord", ["direct", "earley", "cky"]),        # one unary component with chords, in every labelling      # the shipped log-space semiring, judged as the reals exp(score)
 ]
 
 
